@@ -50,7 +50,7 @@ def same_value(typ, val, mem, off, bit=None):
         return R.eq_le(mem[off:off + n], typ in SIGNED, val)
     if is_string_template(typ):
         ln = R.from_le(mem[off:off + 4], True)
-        cap = typ.size - 4
+        cap = [m.array for m in typ.members if m.name == "DATA"][0]     # capacity = length of the DATA array (the structure may be padded)
         if not isinstance(val, str):
             return False
         if not (0 <= ln <= cap):
